@@ -289,6 +289,51 @@ func vhChooseTemplate() []vsProd {
 	return prods
 }
 
+// vhChooseWide: one long alternative in the root (up to 4 terms from a small
+// menu in which the other production may occur several times) — reaches
+// prefixes made of repeated nullable sub-productions.
+func vhChooseWide() []vsProd {
+	prods := make([]vsProd, vhNumProds)
+	menu := []int{tLit, tLitOpt, tSelf, tOther, tLookPos}
+	nterms := 1 + vChoose("nterms", 4)
+	var terms []vsTerm
+	for k := 0; k < nterms; k++ {
+		t := vsTerm{kind: menu[vChoose("term", len(menu))]}
+		if t.kind == tOther {
+			t.other = 1
+		}
+		terms = append(terms, t)
+	}
+	prods[0].alts = append(prods[0].alts, terms)
+	if vBool("second-alternative") {
+		prods[0].alts = append(prods[0].alts, []vsTerm{{kind: tLit}})
+	}
+	n1 := 1 + vChoose("nterms1", 2)
+	var t1 []vsTerm
+	for k := 0; k < n1; k++ {
+		t := vsTerm{kind: vhOtherMenu[vChoose("term1", len(vhOtherMenu))]}
+		if t.kind == tOther {
+			t.other = 0
+		}
+		t1 = append(t1, t)
+	}
+	prods[1].alts = append(prods[1].alts, t1)
+	return prods
+}
+
+func VH_C08_ValidateWide() {
+	prods := vhChooseWide()
+	strcts := vhBuildGraph(prods)
+	err := validate(strcts[0])
+	if vsLeftRecursive(prods) {
+		vReach("left-recursive")
+		vAssert(err != nil, "C08: left-recursive grammar accepted by validate")
+	} else {
+		vReach("not-left-recursive")
+		vAssert(err == nil, "C08: grammar without left recursion rejected by validate")
+	}
+}
+
 func VH_C08_Validate() {
 	prods := vhChooseTemplate()
 	strcts := vhBuildGraph(prods)
